@@ -147,3 +147,49 @@ Lemma search_spec (f : nat -> bool) (n : nat) :
 Proof.
   intro Hmono. unfold search. apply search_loop_spec; auto; try lia.
 Qed.
+
+(* ---- two sorted permutations agree on their keys ----
+   Whatever permutation an unstable sort returns, the sequence of sort keys is the
+   same: this is what makes a comparison "modulo ties" well defined. *)
+Section SortedUnique.
+Variable K : Type.
+Variable leK : K -> K -> Prop.
+Hypothesis leK_antisym : forall a b, leK a b -> leK b a -> a = b.
+
+Lemma sorted_perm_eq (l1 l2 : list K) :
+  Permutation l1 l2 -> StronglySorted leK l1 -> StronglySorted leK l2 -> l1 = l2.
+Proof.
+  revert l2. induction l1 as [|a t1 IH]; intros l2 Hp H1 H2.
+  - apply Permutation_nil in Hp. subst. reflexivity.
+  - destruct l2 as [|b t2]; [apply Permutation_sym, Permutation_nil in Hp; discriminate|].
+    inversion H1 as [|? ? Ht1 Ha]; subst. inversion H2 as [|? ? Ht2 Hb]; subst.
+    rewrite Forall_forall in Ha, Hb.
+    assert (E : a = b).
+    { assert (Hb_in : In b (a :: t1)) by (eapply Permutation_in; [symmetry; exact Hp|left; reflexivity]).
+      assert (Ha_in : In a (b :: t2)) by (eapply Permutation_in; [exact Hp|left; reflexivity]).
+      destruct Hb_in as [|Hb_in]; [assumption|]. destruct Ha_in as [|Ha_in]; [congruence|].
+      apply leK_antisym; [apply Ha; exact Hb_in|apply Hb; exact Ha_in]. }
+    subst b. f_equal. apply IH; auto. eapply Permutation_cons_inv; exact Hp.
+Qed.
+End SortedUnique.
+
+Lemma ssorted_map {A K} (key : A -> K) (leK : K -> K -> Prop) l :
+  StronglySorted (fun a b => leK (key a) (key b)) l -> StronglySorted leK (map key l).
+Proof.
+  induction 1 as [|a l Hl IH Ha]; simpl; constructor; auto.
+  rewrite Forall_forall in *. intros k Hk. apply in_map_iff in Hk. destruct Hk as (x & <- & Hx). auto.
+Qed.
+
+(* keys of any two sorted permutations coincide *)
+Lemma sorted_perm_keys_eq {A K} (key : A -> K) (leK : K -> K -> Prop) :
+  (forall a b, leK a b -> leK b a -> a = b) ->
+  forall l1 l2 : list A, Permutation l1 l2 ->
+  StronglySorted (fun a b => leK (key a) (key b)) l1 ->
+  StronglySorted (fun a b => leK (key a) (key b)) l2 ->
+  map key l1 = map key l2.
+Proof.
+  intros Hanti l1 l2 Hp H1 H2. apply (sorted_perm_eq K leK Hanti).
+  - apply Permutation_map. exact Hp.
+  - apply ssorted_map. exact H1.
+  - apply ssorted_map. exact H2.
+Qed.
